@@ -413,7 +413,7 @@ structure FutQ (s : St) (rest : List (Nat × Nat)) : Prop where
   cd : ∀ r ∈ s.ras, r.cdStart ≤ s.h
   ev : ∀ r ∈ s.ras, r.evH = 0 ∨ s.h < r.evH ∨ (r.evH, r.id) ∈ rest
 
-theorem handle_futQ (s : St) (e : Nat × Nat) (es : List (Nat × Nat)) (h : Lev s) (he : e ∈ s.lev) (h1 : e.1 = s.h)
+theorem handle_futQ (s : St) (e : Nat × Nat) (es : List (Nat × Nat)) (h : Lev s) (he : e ∈ s.lev) (_h1 : e.1 = s.h)
     (_ : ∀ e' ∈ es, e'.2 ≠ e.2) (hq : FutQ s (e :: es)) : FutQ (handleLivenessEvent s e.2) es := by
   obtain ⟨r, hg, hev⟩ := h.ev_ra e he
   obtain ⟨s1, hs⟩ := slashLiveness_ok hq.cust r
